@@ -430,7 +430,7 @@ impl<'de, 'a> SeqAccess<'de> for ListIter<'de, 'a> {
                         // Skip additional bytes if we own data for next iteration, but deserialize from
                         // the borrowed data from our buffer
                         Content::Owned(s, skip) => {
-                            let item = s.split_at(skip + end).0;
+                            let item = &s[skip..skip + end];
                             let result = seed.deserialize(AtomicDeserializer {
                                 content: CowRef::Slice(item),
                                 escaped: self.escaped,
